@@ -2,6 +2,10 @@
 (* Bounded instance of Bundle (C05): every module graph on <= 4 files                          *)
 (*   * n <= 3: EVERY directed graph (self-loops, edges back into the entry: all cyclic graphs),  *)
 (*   * n  = 4: every DAG (shared and diamond dependencies),                                      *)
+(*   * n  = 5: the TWIN graph 1->2, 1->3, 2->4, 3->5 -- files 2 and 3 live in sibling            *)
+(*     directories and write the SAME literal (`./c` or `../c`) for their dependency, which      *)
+(*     denotes file 4 for one and file 5 for the other (a require string means a file only       *)
+(*     relative to the requiring file); variant with nothing at the second location,            *)
 (* in which all files are reachable from the entry, x one feature:                              *)
 (*   plain | dup (every call twice: second one is a cache hit / the same file through another     *)
 (*   spelling) | rev (calls in reverse order) | fault(f, missing|broken|ret0|ret2|data) |       *)
@@ -24,10 +28,15 @@ RECURSIVE Grow(_, _)
 Grow(A, S) == LET T == S \cup {e[2] : e \in {x \in A : x[1] \in S}} IN IF T = S THEN S ELSE Grow(A, T)
 AllReachable(n, A) == Grow(A, {1}) = 1..n
 Acyclic(n, A) == \A f \in 1..n : f \notin Grow(A, {e[2] : e \in {x \in A : x[1] = f}})
+TwinAdj == {<<1, 2>>, <<1, 3>>, <<2, 4>>, <<3, 5>>}
 Adjs(n) == IF n <= 3 THEN {A \in SUBSET ((1..n) \X (1..n)) : AllReachable(n, A)}
+           ELSE IF n = 5 THEN {TwinAdj}
            ELSE {A \in SUBSET ({<<1, t>> : t \in 2..n} \cup {<<f, t>> \in (2..n) \X (2..n) : f # t}) : AllReachable(n, A) /\ Acyclic(n, A)}
 NoFeat == [k |-> "plain", f |-> 0, t |-> 0, kind |-> ""]
-Feats(n, A) == {NoFeat, [NoFeat EXCEPT !.k = "dup"], [NoFeat EXCEPT !.k = "rev"]}
+TwinFeats == {[NoFeat EXCEPT !.k = "twin", !.kind = kd] : kd \in {"dot", "dotdot"}}
+             \cup {[NoFeat EXCEPT !.k = "twin", !.f = 5, !.kind = kd] : kd \in {"dot", "dotdot"}}       \* nothing at the second location
+Feats(n, A) == IF n = 5 THEN TwinFeats ELSE
+               {NoFeat, [NoFeat EXCEPT !.k = "dup"], [NoFeat EXCEPT !.k = "rev"]}
                \cup {[NoFeat EXCEPT !.k = "fault", !.f = f, !.kind = kd] : f \in 2..n, kd \in {"missing", "broken", "ret0", "ret2", "data"}}
                \cup {[NoFeat EXCEPT !.k = "excl", !.f = f] : f \in 2..n}
                \cup {[NoFeat EXCEPT !.k = kk, !.f = e[1], !.t = e[2]] : kk \in {"shadow", "nonlit"}, e \in A}
@@ -38,7 +47,7 @@ MkGraph(n, A, ft) ==
                           IF ft.k = "shadow" /\ ft.f = f /\ ft.t = t THEN 1 ELSE 0,
                           IF ft.k = "excl" /\ ft.f = t THEN 1 ELSE 0) IN
   [ n |-> n,
-    kind |-> [f \in 1..n |-> IF ft.k = "fault" /\ ft.f = f THEN ft.kind ELSE "lua"],
+    kind |-> [f \in 1..n |-> IF ft.k = "fault" /\ ft.f = f THEN ft.kind ELSE IF ft.k = "twin" /\ ft.f = f THEN "missing" ELSE "lua"],
     calls |-> [f \in 1..n |-> LET q == targets(f) IN
                  IF ft.k = "dup" THEN Flat([i \in 1..Len(q) |-> <<mk(f, q[i]), mk(f, q[i])>>]) ELSE [i \in 1..Len(q) |-> mk(f, q[i])]],
     feat |-> ft ]
@@ -54,7 +63,7 @@ Set(r) == /\ cache' = r.cache /\ stack' = r.stack /\ defs' = r.defs /\ errors' =
 \* workers build the graphs): an initial state fixes only the number of files and the entry's own targets
 NoGraph == [n |-> 0, kind |-> <<>>, calls |-> <<>>, feat |-> NoFeat]
 McInit == /\ g = NoGraph /\ pc = "pick"
-          /\ \E n \in 1..MaxN : \E E1 \in SUBSET (1..n) : /\ (\E A \in Adjs(n) : {e[2] : e \in {x \in A : x[1] = 1}} = E1) /\ steps = n /\ skip = E1
+          /\ \E n \in (1..MaxN) \cup (IF MaxN >= 4 THEN {5} ELSE {}) : \E E1 \in SUBSET (1..n) : /\ (\E A \in Adjs(n) : {e[2] : e \in {x \in A : x[1] = 1}} = E1) /\ steps = n /\ skip = E1
           /\ cache = <<>> /\ stack = <<>> /\ defs = <<>> /\ errors = <<>> /\ walk = <<>> /\ inl = {} /\ entered = <<>>
 Pick == /\ pc = "pick"
         /\ \E A \in Adjs(steps) : /\ {e[2] : e \in {x \in A : x[1] = 1}} = skip
